@@ -59,11 +59,14 @@ func clientAll() map[string]string {
 	return m
 }
 
+var lockNote = "lock-set (ghost) state has no native counterpart"
+
 var jsonPartialNote = "the counterexample uses the JSON model's 'error with a partially filled target' outcome, which the native harness (arbitrary bytes) does not construct"
 
 func ch(name string, params, thorough map[string]int, reach []string, desc string) *HarnessSpec {
 	return &HarnessSpec{ReplayRepeat: 40, Name: name, Pkg: "client/setec", Stubs: clientAll(), Params: params, ThoroughParams: thorough, ExpectReach: reach, Desc: desc,
-		ModelOnlyLabels: map[string]string{"undecodable-cache-ignored-as-a-whole": jsonPartialNote, "undecodable-cache-contributes-no-names": jsonPartialNote}}
+		ModelOnlyLabels: map[string]string{"undecodable-cache-ignored-as-a-whole": jsonPartialNote, "undecodable-cache-contributes-no-names": jsonPartialNote,
+			"no-request-under-lock": lockNote, "lock-released": lockNote, "lockset": lockNote, "rebuild-is-atomic-under-updater-lock": lockNote}}
 }
 
 func init() {
